@@ -16,21 +16,22 @@ import (
 // test, the operand catalogue and the initial register files. It is a deterministic function of
 // (VERIF_SEED, configuration name); leaves only copy from it.
 type env struct {
-	cf     cklib.Cfg
-	x      *cklib.Ctx
-	ev     *ckks.Evaluator
-	evk    rlwe.EvaluationKeySet
-	ci     bool
-	k      int // primes consumed per rescale (1, or 2 in the 128-bit precision mode)
-	maxLvl int
-	delta  *big.Rat // default scale
-	consts []constant
-	vecs   []vecOperand
-	pts    map[string]*reg // plaintext operands (ct field unused, pt holds the plaintext)
-	ptv    map[string]*rlwe.Plaintext
-	inits  [][]*reg
-	rotKs  []int
-	stale  *rlwe.Ciphertext
+	cf      cklib.Cfg
+	x       *cklib.Ctx
+	ev      *ckks.Evaluator
+	evk     rlwe.EvaluationKeySet
+	ci      bool
+	k       int // primes consumed per rescale (1, or 2 in the 128-bit precision mode)
+	maxLvl  int
+	delta   *big.Rat // default scale
+	consts  []constant
+	bconsts []constant // boundary-valued scalars (subset of consts)
+	vecs    []vecOperand
+	pts     map[string]*reg // plaintext operands (ct field unused, pt holds the plaintext)
+	ptv     map[string]*rlwe.Plaintext
+	inits   [][]*reg
+	rotKs   []int
+	stale   *rlwe.Ciphertext
 }
 
 var initNames = []string{"equal", "r1-scale-x2", "r1-rescaled", "r0-lower-level", "r1-degree2", "r0-level-1", "r0-level-0"}
@@ -93,6 +94,44 @@ func newEnv(seed uint64, cf cklib.Cfg) *env {
 		{kind: "bignumComplex-gint", val: &bignum.Complex{bf(1), bf(im(2))}, m: cI(1, 2), isInt: true},
 		{kind: "bignumComplex-frac", val: &bignum.Complex{bf(0.75), bf(im(-0.5))}, m: cI(0.75, -0.5)},
 	}
+
+	// ---- boundary scalars: per Go type the API accepts, the values at which a conversion through a narrower or
+	// signed type changes the number (2^31, 2^32, 2^53±1, 2^63-1, 2^63, 2^64-1). Exact integer model. They are
+	// not part of the program alphabet (see boundaryScenario).
+	bi := func(x *big.Int) cklib.C { return cklib.FromBig(new(big.Float).SetPrec(cklib.Prec).SetInt(x), nil) }
+	p2 := func(k uint) *big.Int { return new(big.Int).Lsh(big.NewInt(1), k) }
+	sub1 := func(x *big.Int) *big.Int { return new(big.Int).Sub(x, big.NewInt(1)) }
+	add1 := func(x *big.Int) *big.Int { return new(big.Int).Add(x, big.NewInt(1)) }
+	ngt := func(x *big.Int) *big.Int { return new(big.Int).Neg(x) }
+	bfI := func(x *big.Int) *big.Float { return new(big.Float).SetPrec(128).SetInt(x) }
+	e.bconsts = []constant{
+		{kind: "uint64-2p63", val: uint64(1) << 63, m: bi(p2(63)), isInt: true},
+		{kind: "uint64-2p64m1", val: ^uint64(0), m: bi(sub1(p2(64))), isInt: true},
+		{kind: "uint64-2p63m1", val: uint64(1)<<63 - 1, m: bi(sub1(p2(63))), isInt: true},
+		{kind: "uint64-2p53p1", val: uint64(1)<<53 + 1, m: bi(add1(p2(53))), isInt: true},
+		{kind: "uint64-2p32", val: uint64(1) << 32, m: bi(p2(32)), isInt: true},
+		{kind: "uint-2p63", val: uint(1) << 63, m: bi(p2(63)), isInt: true},
+		{kind: "uint-2p64m1", val: ^uint(0), m: bi(sub1(p2(64))), isInt: true},
+		{kind: "uint-2p32", val: uint(1) << 32, m: bi(p2(32)), isInt: true},
+		{kind: "int64-max", val: int64(1<<63 - 1), m: bi(sub1(p2(63))), isInt: true},
+		{kind: "int64-min", val: int64(-1 << 63), m: bi(ngt(p2(63))), isInt: true},
+		{kind: "int64-2p53m1", val: int64(1<<53 - 1), m: bi(sub1(p2(53))), isInt: true},
+		{kind: "int64-m2p32", val: int64(-1 << 32), m: bi(ngt(p2(32))), isInt: true},
+		{kind: "int-min", val: int(-1 << 63), m: bi(ngt(p2(63))), isInt: true},
+		{kind: "int-m2p31", val: int(-1 << 31), m: bi(ngt(p2(31))), isInt: true},
+		{kind: "int-2p32", val: int(1 << 32), m: bi(p2(32)), isInt: true},
+		{kind: "float64-2p53", val: float64(1 << 53), m: bi(p2(53)), isInt: true},
+		{kind: "float64-2p63", val: float64(1 << 63), m: bi(p2(63)), isInt: true},
+		{kind: "float64-m2p31", val: float64(-1 << 31), m: bi(ngt(p2(31))), isInt: true},
+		{kind: "complex128-2p32", val: complex(float64(1<<32), im(-float64(1<<31))), m: cI(float64(1<<32), -float64(1<<31)), isInt: true},
+		{kind: "bigInt-2p63", val: p2(63), m: bi(p2(63)), isInt: true},
+		{kind: "bigInt-2p64p1", val: add1(p2(64)), m: bi(add1(p2(64))), isInt: true},
+		{kind: "bigInt-m2p64", val: ngt(p2(64)), m: bi(ngt(p2(64))), isInt: true},
+		{kind: "bigFloat-2p63", val: bfI(p2(63)), m: bi(p2(63)), isInt: true},
+		{kind: "bigFloat-2p64m1", val: bfI(sub1(p2(64))), m: bi(sub1(p2(64))), isInt: true},
+		{kind: "bignumComplex-2p63", val: &bignum.Complex{bfI(p2(63)), bfI(big.NewInt(0))}, m: bi(p2(63)), isInt: true},
+	}
+	e.consts = append(e.consts, e.bconsts...)
 
 	// ---- vector operands ----------------------------------------------------------------------------------
 	full := regVec(5, x.Slots, e.ci)
